@@ -157,7 +157,7 @@ def lfr(ctx):
     ctx.ob("ROLE", site, "the labels are compared for equality", len(agree) >= 1, "")
     coerced = {T.akey(e.value) for e in tr.of("coerce")} | {T.akey(e.result) for e in tr.calls() if e.callee == ("lib", "int")}
     mu = [e for e in tr.mutations("_confusion")]
-    ctx.ob("ROLE", site, "confusion matrix incremented", len(mu) == 1, "")
+    ctx.anchor(site, "confusion matrix incremented", len(mu) == 1, "")
     allowed_idx = set()
     for e in mu:
         idx = [p[1] for p in e.path if p[0] == "item"]
